@@ -340,3 +340,57 @@ def platform_independence(chk, prog):
         if hit:
             ob.verdict = "violated"
             chk.violation("GOARCH=386", hit["what"], hit)
+    # identical SSA does not mean identical semantics where a 64-bit value passes through a platform-width type: a
+    # conversion uint64/int64 -> int/uint/uintptr keeps 64 bits here and 32 bits on a 32-bit target
+    narrow = []
+    for n in ours:
+        f = p2.funcs[n]
+        tymap = {p_["name"]: p_["type"] for p_ in (f.get("params") or []) + (f.get("freevars") or [])}
+        for b in f.get("blocks") or []:
+            for ins in b["instrs"]:
+                if ins.get("name") and ins.get("type"):
+                    tymap[ins["name"]] = ins["type"]
+        for b in f.get("blocks") or []:
+            for ins in b["instrs"]:
+                if ins["op"] in ("Convert", "ChangeType"):
+                    try:
+                        xo = ins.get("x") if isinstance(ins.get("x"), dict) else {}
+                        xt = xo.get("type") or tymap.get(xo.get("n"))
+                        tt, ft = p2.T(ins["type"]), (p2.T(xt) if xt else None)
+                        if ft is None or not (tt.is_int() and ft.is_int()):
+                            continue
+                        if tt.u.name in ("int", "uint", "uintptr") and ft.int_info()[0] == 64 and ft.u.name not in ("int", "uint", "uintptr"):
+                            if isinstance(ins["x"], dict) and ins["x"].get("k") == "const":
+                                continue
+                            # harmless when every use masks the result down to bits that survive the truncation
+                            # (e.g. `int(^nonzero) & 1` in Scalar.Equal)
+                            def refs(o, name):
+                                if isinstance(o, dict):
+                                    return (o.get("n") == name and o.get("k") != "const") or any(refs(v, name) for v in o.values())
+                                if isinstance(o, list):
+                                    return any(refs(v, name) for v in o)
+                                return False
+                            uses = [u for b2 in f["blocks"] for u in b2["instrs"] if u is not ins and any(refs(v, ins.get("name")) for k_, v in u.items() if k_ not in ("name",))]
+
+                            def masked(u):
+                                if u["op"] != "BinOp" or u.get("binop") != "&":
+                                    return False
+                                for key in ("x", "y"):
+                                    o = u.get(key)
+                                    if isinstance(o, dict) and o.get("k") == "const":
+                                        try:
+                                            return 0 <= int(o.get("v")) < (1 << 31)
+                                        except (TypeError, ValueError):
+                                            return False
+                                return False
+                            if uses and all(masked(u) for u in uses):
+                                continue
+                            narrow.append("%s: %s -> %s at %s" % (n.split(".")[-1], ft.u.name, tt.u.name, ins.get("pos", "")))
+                    except Exception:
+                        continue
+    ob2 = chk.soft("no 64-bit value is converted to a platform-width integer type (int / uint / uintptr): nothing is truncated on 32-bit targets", not narrow, [], "SSA scan", detail=str(narrow[:4]))
+    if narrow and not diff:
+        hit = config_battery(chk.seed, goarch="386")
+        if hit:
+            ob2.verdict = "violated"
+            chk.violation("GOARCH=386", hit["what"], hit)
